@@ -663,7 +663,7 @@ func main() {
 	vk.Par(len(paths), 16, func(i int) { runHlsPath(r, paths[i]) })
 	r.Cov("hls_paths", len(paths))
 	// (e)
-	names := []string{"a", "..", ".", "../x", "a/../../b", "/abs", "a/b", "..\\x", strings.Repeat("a", 300)}
+	names := []string{"a", "..", ".", "../x", "a/../../b", "/abs", "a/b", "..\\x", strings.Repeat("a", 300), "/../x", "//../../x", "/a/../../x", "a/./b", "/.."}
 	for _, via := range []string{"rtmp", "customize", "rtsp"} {
 		for _, n := range names {
 			runStreamName(r, via, n)
